@@ -21,7 +21,7 @@ ANCHORS = ['pycaption.base:Caption.__init__', 'pycaption.base:CaptionSet.__init_
            'pycaption.sami:SAMIReader._translate_lang']
 REQUIRE = {'reads': 300, 'reads_on_reused_reader': 80, 'edits': 80, 'writes_between_reads': 30,
            'results_compared_with_pristine_child': 300, 'results_rechecked_at_end': 200, 'child_processes': 10,
-           'reads_scc_reused': 10, 'reads_sami_multi_language': 10, 'add_style_then_later_read': 10}
+           'reads_scc_reused': 10, 'reads_microdvd_reused': 5, 'reads_sami_multi_language': 10, 'add_style_then_later_read': 10}
 SHARDS = {'quick': 8, 'thorough': 16}
 TIME_LIMIT = {'quick': 400, 'thorough': 3600}
 FORMATS = ['srt', 'webvtt', 'dfxp', 'sami', 'microdvd', 'scc']
@@ -63,6 +63,19 @@ def cases(ctx):
                 lines, _ = sccprog.encode_popon(sccprog.gen_popon(rng, ncaps=rng.choice([1, 2])))
                 ds.append({'format': 'scc', 'doc': sccprog.scc_doc(lines), 'reader_kwargs': {}, 'read_kwargs': {},
                            'nlang': 1})
+        reuse_p = 0.6
+        if i % 4 == 1:
+            # one reader object, several documents of ONE text format (e.g. MicroDVD with and without a
+            # frame-rate header): nothing a read learns may survive into the next one
+            f = rng.choice(['microdvd', 'microdvd', 'webvtt', 'srt', 'dfxp', 'sami'])
+            ds = []
+            for k in range(ndocs):
+                for _ in range(50):
+                    d = gen_doc(rng, f'Q{ctx.shard}.{i}.{k}', ctx)
+                    if d['format'] == f and (not ds or d['reader_kwargs'] == ds[0]['reader_kwargs']):
+                        ds.append(d)
+                        break
+            reuse_p = 0.95
         # a second document of a format already present, so that reader reuse sees two different inputs
         f0 = ds[0]['format']
         for _ in range(20):
@@ -74,7 +87,7 @@ def cases(ctx):
         for _ in range(rng.randrange(5, 13)):
             r = rng.random()
             if r < 0.55 or not any(o['op'] == 'read' for o in ops):
-                ops.append({'op': 'read', 'doc': rng.randrange(len(ds)), 'reuse': rng.random() < 0.6})
+                ops.append({'op': 'read', 'doc': rng.randrange(len(ds)), 'reuse': rng.random() < reuse_p})
             elif r < 0.7:
                 ops.append({'op': 'write', 'target': rng.randrange(99), 'writer': rng.choice(W.WRITERS + ['SCCWriter'])})
             else:
@@ -135,6 +148,8 @@ def check(case, ctx):
                 ctx.count('reads_on_reused_reader')
                 if d['format'] == 'scc':
                     ctx.count('reads_scc_reused')
+                if d['format'] == 'microdvd':
+                    ctx.count('reads_microdvd_reused')
             else:
                 reader = getattr(pycaption, name)(**d['reader_kwargs'])
                 if op['reuse']:
